@@ -232,12 +232,16 @@ TraceVerify1 ==
    (b) Tres = 0 and (c) Ires = 0 (generators folded round by round) - except for the single value of the
    combiner r = -Ires/Tres at which the combined check cannot tell (probability 1/P), and the combined
    residual must be the weighted sum the specification says it is. *)
+\* NO_LUCK = "1": the coincidence r = -Ires/Tres is not excused. Used for proofs crafted with knowledge of the combiner the verifier derived for
+\* the unaltered proof (the harness' "rcraft" workload): there a vanishing weighted sum is construction, not luck; the driver tolerates the
+\* one-in-P event by counting.
+NoLuck == "NO_LUCK" \in DOMAIN IOEnv /\ IOEnv.NO_LUCK = "1"
 RefExplains ==
   LET a == out'.ref IN
   (a # << >> /\ a.nz) =>
     /\ a.mega = Fadd(a.Ires, Fmul(a.r, a.Tres))
     /\ \/ (Ev.res = "ok") <=> (a.Ires = 0 /\ a.Tres = 0)
-       \/ a.Tres # 0 /\ a.mega = 0
+       \/ ~NoLuck /\ a.Tres # 0 /\ a.mega = 0
 
 \* a proof with the identity in a mandatory position (on a toy group an honest T_k is the identity with probability 1/P): what the verifier does
 \* with it is C03's statement (CMP_V); no other property says anything about such a run
